@@ -51,8 +51,18 @@ pub struct ImportTok {
     pub spec: ImportSpec,
 }
 
+#[derive(Clone, Debug, Serialize)]
+pub struct BodyTok {
+    pub name: String,
+    pub line: usize,
+    pub start: usize,
+    pub end: usize,
+    pub func_line: usize,
+}
+
 #[derive(Clone, Debug, Default, Serialize)]
 pub struct Rendered {
+    pub body_names: Vec<BodyTok>,
     pub text: String,
     pub defs: Vec<DefTok>,
     pub uses: Vec<UseTok>,
@@ -205,12 +215,23 @@ fn render_test(w: &mut W, out: &mut Rendered, indent: &str, t: &TestSpec, in_cla
     }
     s.push_str("):");
     w.push(s);
-    w.push(format!("{}    pass", indent));
+    let mut body_last = line + 1;
+    if t.body_uses.is_empty() {
+        w.push(format!("{}    pass", indent));
+    } else {
+        for n in &t.body_uses {
+            body_last = w.cur();
+            let l = format!("{}    print(", indent);
+            let start = l.len();
+            out.body_names.push(BodyTok { name: NAMES[*n].to_string(), line: w.cur(), start, end: start + NAMES[*n].len(), func_line: line });
+            w.push(format!("{}{}.value)", l, NAMES[*n]));
+        }
+    }
     out.funcs.push(FuncTok {
         name: fname,
         line,
         body_first: line + 1,
-        body_last: line + 1,
+        body_last,
         is_fixture: false,
         is_test: true,
         params,
@@ -279,6 +300,12 @@ fn render_fixture(w: &mut W, out: &mut Rendered, f: &FixtureSpec, item_idx: usiz
     w.push(s);
     w.push(format!("    \"\"\"DOC{}\"\"\"", f.tag));
     let body_first = line + 1;
+    for n in &f.body_uses {
+        let l = "    setup(".to_string();
+        let start = l.len();
+        out.body_names.push(BodyTok { name: NAMES[*n].to_string(), line: w.cur(), start, end: start + NAMES[*n].len(), func_line: line });
+        w.push(format!("{}{})", l, NAMES[*n]));
+    }
     let mut yield_line = None;
     match f.body % 3 {
         0 => w.push("    return 1".to_string()),
